@@ -129,6 +129,12 @@ def trace_render_pure(run, model):
             seen.add(g_.qualname)
             for x in ast.walk(g_.node):
                 it = x.iter if isinstance(x, (ast.For, ast.comprehension)) else None
+                if isinstance(it, ast.Name):
+                    # a local bound once to (a snapshot of) the deque: `records = list(self.full.trace)`
+                    from sa.util import local_defs as _ld20
+                    ds_ = [d_ for d_ in _ld20(g_.node).get(it.id, []) if isinstance(d_, ast.AST)]
+                    if len(ds_) == 1 and len(_ld20(g_.node).get(it.id, [])) == 1:
+                        it = ds_[0]
                 if it is not None and 'trace' in norm(it):
                     srcs.append(norm(it))
                 if isinstance(x, ast.Call) and isinstance(x.func, ast.Attribute) and isinstance(x.func.value, ast.Name) and g_.params and x.func.value.id == g_.params[0]:
@@ -259,7 +265,10 @@ def check(run, model, tier):
             hs = helpers[0]
             run.touch(hs)
             loops = [x for x in walk_shallow(hs.node) if isinstance(x, ast.For)]
-            ok = len(loops) == 1 and ring_of(loops[0].iter) == 'rtc.tuples'
+            it0_ = loops[0].iter if len(loops) == 1 else None
+            if isinstance(it0_, ast.Call) and isinstance(it0_.func, ast.Name) and it0_.func.id in ('list', 'tuple') and len(it0_.args) == 1:
+                it0_ = it0_.args[0]          # a snapshot of the ring
+            ok = len(loops) == 1 and ring_of(it0_) == 'rtc.tuples'
             if not ok and len(loops) == 1 and isinstance(loops[0].iter, ast.Name) and loops[0].iter.id in hs.params:
                 # the helper is handed the tuples: every call site passes this step's ring
                 idx_ = hs.params.index(loops[0].iter.id)
